@@ -304,6 +304,74 @@ def replay_fedback(a):
     return None
 
 
+def dash_o_cases(suite):
+    """[(label, key bytes, entry)] evaluated in an interpreter started with -O (assert statements stripped)"""
+    G = params.bls_g1()
+    T = BL.torsion_points("E1")["T_11"]
+    keys = [("valid", MB.sk_to_pk(SK[0])), ("identity", MB.g1_bytes(None)), ("T_11", MB.g1_bytes(T)),
+            ("sk*G + T", MB.g1_bytes(E1.add(E1.mul(G, SK[0]), T))), ("x not on curve", b"\x9a" + b"\x11" * 47)]
+    entries = ["KeyValidate", "Verify", "AggregateVerify"] + (["FastAggregateVerify", "PopVerify"] if suite == "pop" else [])
+    return [(kl, kb, e) for kl, kb in keys for e in entries]
+
+
+def dash_o_run(suite):
+    """verdicts of dash_o_cases(suite) from a `python -O` interpreter: list of True / False / 'raise X'"""
+    import json
+    import os
+    import subprocess
+    import sys
+    cases = dash_o_cases(suite)
+    sig = MB.sign(suite, SK[0], MSGS[0])
+    pop = MB.pop_prove(SK[0])
+    code = (
+        "import json,sys\n"
+        "from py_ecc import bls\n"
+        "C=getattr(bls,%r)\n"
+        "cases=json.loads(sys.stdin.read())\n"
+        "out=[]\n"
+        "for kb,e in cases:\n"
+        "    k=bytes.fromhex(kb); sig=bytes.fromhex(%r); pop=bytes.fromhex(%r); m=bytes.fromhex(%r)\n"
+        "    try:\n"
+        "        v={'KeyValidate':lambda:C.KeyValidate(k),'Verify':lambda:C.Verify(k,m,sig),'AggregateVerify':lambda:C.AggregateVerify([k],[m],sig),\n"
+        "           'FastAggregateVerify':lambda:C.FastAggregateVerify([k],m,sig),'PopVerify':lambda:C.PopVerify(k,pop)}[e]()\n"
+        "        out.append(v if v is True or v is False else 'non-bool')\n"
+        "    except Exception as ex:\n"
+        "        out.append('raise '+type(ex).__name__)\n"
+        "print(json.dumps(out))\n" % (MB.CLASS[suite], sig.hex(), pop.hex(), MSGS[0].hex()))
+    env = dict(os.environ)
+    env.pop("PYTHONOPTIMIZE", None)
+    p = subprocess.run([sys.executable, "-O", "-c", code], input=json.dumps([[kb.hex(), e] for _l, kb, e in cases]),
+                       capture_output=True, text=True, env=env, timeout=1800)
+    if p.returncode != 0:
+        raise RuntimeError("python -O run failed: " + p.stderr[-800:])
+    return json.loads(p.stdout.strip().splitlines()[-1])
+
+
+def task_dash_o(a, env):
+    suite = a["suite"]
+    r = R("interpreter-started-with-O:%s" % suite)
+    cases = dash_o_cases(suite)
+    got = dash_o_run(suite)
+    for (kl, kb, e), g in zip(cases, got):
+        exp = kl == "valid"
+        r.ev += 1
+        r.dk.add((kl, e))
+        if g is not exp:
+            r.viol("C04:%s:%s:python-O:%s" % (suite, e, "accepts-invalid" if g is True else "rejects-valid" if g is False else "raises"),
+                   ME + ":replay_dash_o", {"suite": suite, "key": kl, "entry": e}, exp, g, note="%s, key: %s" % (e, kl))
+    r.sample({"interpreter": "python -O", "keys": ["valid", "identity", "T_11", "sk*G + T", "x not on curve"]})
+    return r
+
+
+def replay_dash_o(a):
+    cases = dash_o_cases(a["suite"])
+    got = dash_o_run(a["suite"])
+    for (kl, kb, e), g in zip(cases, got):
+        if kl == a["key"] and e == a["entry"] and g is not (kl == "valid"):
+            return {"expected": kl == "valid", "observed": g}
+    return None
+
+
 def _resolve(a, env):
     thorough = a["tier"] == "thorough"
     suite, entry = a["suite"], a["entry"]
@@ -482,4 +550,5 @@ def run(ctx):
     tasks.sort(key=lambda t: 0 if "Aggregate" in t[1]["entry"] else 1)
     for s_ in BL.SUITES:
         tasks.append(("fedback", {"suite": s_}))
+        tasks.append(("dash_o", {"suite": s_}))
     ctx.pmap(ME, tasks)
